@@ -8,6 +8,7 @@ import dead_reads
 import derived
 import reader_extra
 import layout_rules
+import hll_rules
 import json, os
 from vlib.core import VERIF
 
@@ -42,6 +43,10 @@ def run(facts, tier):
     obs += o
     rules.append({"rule": "io-words", "instances": len([x for x in o if x["status"] != "info"]), "min": 28,
                   "text": "every linear layout a writer can emit (fixed runs, raw / serde / nested parts, loops) is one of the layouts the corresponding reader consumes, for the stream and the byte forms"})
+    o = hll_rules.ooo_resets_hip(facts)
+    obs += o
+    rules.append({"rule": "hll ooo/hip", "instances": len(o), "min": 3,
+                  "text": "a field the readers skip under a flag (HLL hipAccum when out-of-order) is zeroed wherever that flag is set, so the image of a union result survives its own round trip"})
     o = layout_rules.estimation_state_written(facts)
     obs += o
     rules.append({"rule": "estimation state written", "instances": len(o), "min": 8,
